@@ -807,8 +807,9 @@ func TypeConforms(ctx map[ast.Variable]ast.BaseTerm, left ast.BaseTerm, right as
 	}
 	if leftConst, ok := left.(ast.Constant); ok {
 		if rightConst, ok := right.(ast.Constant); ok {
-			if strings.HasPrefix(leftConst.Symbol, rightConst.Symbol) {
-				return true
+			if leftConst.Type == ast.NameType && rightConst.Type == ast.NameType &&
+				strings.HasPrefix(leftConst.Symbol, rightConst.Symbol+"/") {
+				return true // a name type conforms to its proper prefixes (at a '/' boundary)
 			}
 			return leftConst.Type == ast.NameType && rightConst.Equals(ast.NameBound)
 		}
